@@ -315,6 +315,9 @@ def checkN2I (desc tree : PV) : List String := Id.run do
     let contents := orEmptyDict (fileOf files (dir ++ "/" ++ contentsFile) "plist")
     if (fileOf files (dir ++ "/" ++ contentsFile) "plist").isNone then fails := fails ++ ["n2i-contents"]
     let dglyphs := listOf dl "glyphs"
+    -- one file per glyph: the values of contents.plist are pairwise different, also on a case-insensitive file system
+    let cfiles := contents.entries.filterMap (·.2.str?)
+    if !nodup cfiles || !nodup (cfiles.map String.toLower) then fails := fails ++ ["n2i-contents-distinct"]
     if sortedNames (contents.entries.map (·.1)) != sortedNames (dglyphs.filterMap (strOf · "name")) then
       fails := fails ++ ["n2i-contents"]
     for dg in dglyphs do
@@ -383,6 +386,18 @@ def probesOk (dumpG descG : PV) : Bool :=
    | some a, some b => one a b
    | _, _ => true)
 
+/-- what a request asks for, of the description: `default-only` = `none().default_layer(true)` (the default layer and the
+font info, nothing else), `all-default` = `all().default_layer(true)`, `named` = `all().filter_layers(name of the default
+layer)`; the layer keeps the name the writer gave it -/
+def projectDesc (req : String) (desc : PV) : PV :=
+  if req = "all" then desc else
+  let keepLayers (d : PV) : PV := .dict (d.entries.map fun e =>
+    if e.1 = "layers" then (e.1, .arr (e.2.items.filter fun l => strOf l "dir" == some defaultGlyphsDir)) else e)
+  let d := keepLayers desc
+  if req = "default-only" then
+    .dict (d.entries.filter fun e => e.1 = "layers" || e.1 = "fontinfo")
+  else d
+
 def checkI2N (desc dump : PV) : List String := Id.run do
   let mut fails : List String := []
   let sect (k : String) (norm : PV → PV) : Bool := eqPV (norm (orEmptyDict (dump.get k))) (norm (orEmptyDict (desc.get k)))
@@ -440,10 +455,10 @@ def sizeTags (desc : PV) : List String :=
   (if (desc.get "data").isSome || (desc.get "images").isSome then ["stores"] else []) ++
   (if ng > 0 then ["nt"] else [])
 
-def run (inp obs : List String) : Verdict :=
+def runN (inp obs : List String) : Verdict :=
   match inp with
-  | [_, "n2i", feat, descTok] =>
-    let feats := if feat = "-" then [] else [feat]
+  | [_, "n2i", feat, pre, descTok] =>
+    let feats := (if feat = "-" then [] else [feat]) ++ (if pre = "-" then [] else ["pre-" ++ pre])
     match parseTok descTok, obs with
     | some desc, [o] =>
       let expectBad := lossyWritten.contains feat
@@ -460,10 +475,10 @@ def run (inp obs : List String) : Verdict :=
             model := if expectBad then "lossy" else "ok" }
         | none => { agree := false, model := "unparsable-tree" }
     | _, _ => { agree := false, model := "bad-n2i-line" }
-  | [_, "i2n", _seed, _want, descTok] =>
-    match parseTok descTok, obs with
+  | [_, "i2n", _seed, _want, req, descTok] =>
+    match (parseTok descTok).map (projectDesc req), obs with
     | some desc, applied :: rest =>
-      let feats := if applied = "-" then [] else applied.splitOn "+"
+      let feats := (if applied = "-" then [] else applied.splitOn "+") ++ (if req = "all" then [] else ["req-" ++ req])
       let expectReject := feats.any rejectedSpellings.contains
       let expectAltered := feats.any alteringSpellings.contains
       let modelS := if expectReject then "rejected" else if expectAltered then "altered" else "equal"
@@ -481,5 +496,12 @@ def run (inp obs : List String) : Verdict :=
       | _ => { agree := false, model := "bad-i2n-observation" }
     | _, _ => { agree := false, model := "bad-i2n-line" }
   | _ => { agree := false, model := "bad-line" }
+
+/-- lines of the first protocol version (no `pre` / `req` token) are a fresh target / a plain `Font::load` -/
+def run (inp obs : List String) : Verdict :=
+  match inp with
+  | [m, "n2i", feat, descTok] => runN [m, "n2i", feat, "-", descTok] obs
+  | [m, "i2n", seed, want, descTok] => runN [m, "i2n", seed, want, "all", descTok] obs
+  | _ => runN inp obs
 
 end Driver.C05
